@@ -42,6 +42,11 @@ type c27Step struct {
 	Kind  string `json:"kind"` // register | deregister | toggle | subscribe-fast | subscribe-slow | unsubscribe
 	Addr  string `json:"addr,omitempty"`
 	Style string `json:"style,omitempty"` // reading-direct | stopped-cancel-then-unsubscribe | stopped-live-context
+	// stalled-burst: N subscribers that never read join (a push round now lasts N x the dispatcher's patience with one
+	// subscriber), a registration changes, and Victims reading subscribers unsubscribe at the same moment while the
+	// dispatcher is busy with that round; then the stalled ones unsubscribe too
+	N       int `json:"stalled_subscribers,omitempty"`
+	Victims int `json:"unsubscribing_at_once,omitempty"`
 }
 
 type c27Phase struct {
@@ -192,6 +197,83 @@ func TestC27(t *testing.T) {
 			sb.cancel()
 			rec.Count("channels_closed_after_unsubscribe", 1)
 		}
+		// stalledBurst: see c27Step
+		stalledBurst := func(st c27Step, toggle func()) {
+			type stalledSub struct {
+				id     uuid.UUID
+				ch     <-chan types.ServiceStatus
+				cancel context.CancelFunc
+			}
+			stalled := []stalledSub{}
+			for i := 0; i < st.N; i++ {
+				ctx, cancel := context.WithCancel(bg)
+				id, ch := h.Subscribe(ctx)
+				stalled = append(stalled, stalledSub{id, ch, cancel})
+			}
+			victims := []*c27Sub{}
+			for i := 0; i < st.Victims; i++ {
+				subscribe(false)
+				sb := subs[fmt.Sprintf("s%d", subN)]
+				delete(subs, sb.name)
+				victims = append(victims, sb)
+			}
+			logf("stalled-burst: %d subscribers that do not read, %d readers about to unsubscribe", st.N, st.Victims)
+			toggle()
+			time.Sleep(time.Duration(100+r.Intn(200)) * time.Millisecond) // the dispatcher is in its push round
+			rec.Count("stalled_bursts", 1)
+			var wg sync.WaitGroup
+			for _, sb := range victims {
+				wg.Add(1)
+				go func(sb *c27Sub) {
+					defer wg.Done()
+					t0 := time.Now()
+					done := make(chan struct{})
+					go func() { h.Unsubscribe(sb.id); close(done) }()
+					select {
+					case <-done:
+					case <-time.After(60 * time.Second):
+						viol("unsubscribe-never-returns/during-a-long-push-round", fmt.Sprintf("Unsubscribe of %s, called while the dispatcher was serving %d subscribers that do not read, did not return within 60 s", sb.name, st.N))
+						return
+					}
+					took := time.Since(t0).Round(time.Millisecond)
+					logf("unsubscribe of %s during the long round returned after %v", sb.name, took)
+					select {
+					case <-sb.closed:
+						rec.Count("channels_closed_after_unsubscribe_during_a_long_push_round", 1)
+					case <-time.After(20 * time.Second):
+						viol("channel-not-closed-after-unsubscribe/during-a-long-push-round", fmt.Sprintf("Unsubscribe of %s (a reading subscriber), called while the dispatcher was serving %d subscribers that do not read, returned after %v, but the channel was not closed within 20 s after that", sb.name, st.N, took))
+					}
+					sb.cancel()
+				}(sb)
+			}
+			wg.Wait()
+			// the stalled ones go away calcium-style: context cancelled, then Unsubscribe; their channels are closed too
+			for _, x := range stalled {
+				x.cancel()
+			}
+			for _, x := range stalled {
+				done := make(chan struct{})
+				go func() { h.Unsubscribe(x.id); close(done) }()
+				select {
+				case <-done:
+				case <-time.After(60 * time.Second):
+					viol("unsubscribe-never-returns/stalled-subscriber", "Unsubscribe of a subscriber that never read did not return within 60 s")
+					return
+				}
+				closed := false
+				deadline := time.After(20 * time.Second)
+				for !closed {
+					select {
+					case _, ok := <-x.ch:
+						closed = !ok
+					case <-deadline:
+						viol("channel-not-closed-after-unsubscribe/stalled-subscriber", "the channel of a subscriber that never read was not closed within 20 s after Unsubscribe returned")
+						return
+					}
+				}
+				rec.Count("channels_closed_after_unsubscribe", 1)
+			}
+		}
 		subscribe(false)
 		subscribe(true)
 		for pi, ph := range cs.Phases {
@@ -235,6 +317,18 @@ func TestC27(t *testing.T) {
 					subscribe(true)
 				case "unsubscribe":
 					unsubscribe(st.Style)
+				case "stalled-burst":
+					stalledBurst(st, func() {
+						if unreg, ok := registered[st.Addr]; ok {
+							unreg()
+							delete(registered, st.Addr)
+						} else if _, unreg, err := s.etcd.RegisterService(bg, st.Addr, 30*time.Second); err == nil {
+							registered[st.Addr] = unreg
+						}
+						tc = time.Now()
+						rec.Count("registration_changes", 1)
+					})
+					tc = time.Now() // the readers that remain are judged from the end of the burst
 				}
 				if failed {
 					break
@@ -357,6 +451,11 @@ func TestC27(t *testing.T) {
 	for i, st := range styles {
 		ph := &cs.Phases[i%len(cs.Phases)]
 		ph.Steps = append([]c27Step{{Kind: "subscribe-slow"}, {Kind: "unsubscribe", Style: st}}, ph.Steps...)
+	}
+	// ... and a burst of subscribers that do not read, with unsubscriptions during the long push round
+	for i := env.Pick(1, 4); i > 0; i-- {
+		ph := &cs.Phases[(1+2*i)%len(cs.Phases)]
+		ph.Steps = append([]c27Step{{Kind: "stalled-burst", Addr: addrs[r.Intn(len(addrs))], N: 12 + r.Intn(6), Victims: 2 + r.Intn(2)}}, ph.Steps...)
 	}
 	run(cs)
 }
